@@ -11,6 +11,11 @@ import GenjaxModel.Model.SmcIO
 import GenjaxModel.Model.AdevIO
 import GenjaxModel.Model.VmapIO
 import GenjaxModel.Model.DistExprIO
+import GenjaxModel.Model.McmcKernelsIO
+import GenjaxModel.Model.ChainMultiIO
+import GenjaxModel.Model.SeedVecIO
+import GenjaxModel.Model.ViElboIO
+import GenjaxModel.Model.AdevProgIO
 /-! Line-protocol driver: one S-expression per input line, one per output line. -/
 open Genjax
 
@@ -55,6 +60,21 @@ def dispatch (e : SExp) : SExp :=
   | some r => r
   | none =>
   match stepDistSpec e with
+  | some r => r
+  | none =>
+  match stepMcmcKernels e with
+  | some r => r
+  | none =>
+  match stepChainMulti e with
+  | some r => r
+  | none =>
+  match stepSeedVec e with
+  | some r => r
+  | none =>
+  match stepViElbo e with
+  | some r => r
+  | none =>
+  match stepAdevProg e with
   | some r => r
   | none => .list [.atom "bad-op"]
 
